@@ -36,4 +36,54 @@ theorem narrowed_lock_subscribes_twice :
     (runNarrow { callers := [(.check, false), (.check, false)] } [0, 1, 0, 1, 0, 1]).st.subscriptions = 2 := by
   decide
 
+/-! ### attribution -/
+
+/-- **what the channel hands on is exactly what `p` sent, in order, attributed to `p`** — whoever else
+publishes on the topic, whatever they publish -/
+theorem monitor_eq (p : Nat) (msgs : List (Nat × List Nat)) :
+    monitor p msgs = msgs.filter (fun m => m.1 == p) := by
+  unfold monitor
+  induction msgs with
+  | nil => rfl
+  | cons m ms ih =>
+    simp only [List.filter_cons]
+    split
+    · rename_i h
+      simp only [List.map_cons, ih]
+      have : m.1 = p := by simpa using h
+      rw [← this]
+    · exact ih
+
+theorem monitor_sound (p : Nat) (msgs : List (Nat × List Nat)) :
+    ∀ e ∈ monitor p msgs, e.1 = p ∧ e ∈ msgs := by
+  intro e he
+  rw [monitor_eq] at he
+  obtain ⟨h1, h2⟩ := List.mem_filter.mp he
+  exact ⟨by simpa using h2, h1⟩
+
+/-- nothing of `p` is lost or duplicated: each payload of `p` is handed on as often as it was sent -/
+theorem monitor_complete (p : Nat) (msgs : List (Nat × List Nat)) (d : List Nat) :
+    (monitor p msgs).count (p, d) = msgs.count (p, d) := by
+  rw [monitor_eq]
+  induction msgs with
+  | nil => rfl
+  | cons m ms ih =>
+    simp only [List.filter_cons]
+    by_cases h : (m.1 == p) = true
+    · simp only [h, if_true, List.count_cons, ih]
+    · simp only [h, Bool.false_eq_true, if_false, List.count_cons, ih]
+      have : ¬ (m == (p, d)) = true := by
+        intro hc
+        have := (beq_iff_eq.mp hc)
+        rw [this] at h
+        simp at h
+      simp [this]
+
+/-- Refutation witness for the filter as it was: peer 9 — not an end of the channel between 1 and 2 —
+publishes on the pairwise topic; end 1 handed its payload on as coming from 2 -/
+theorem third_party_payload_was_attributed_to_the_target :
+    monitor0 1 2 [(2, [7]), (9, [6, 6, 6]), (1, [5])] = [(2, [7]), (2, [6, 6, 6])] ∧
+    monitor 2 [(2, [7]), (9, [6, 6, 6]), (1, [5])] = [(2, [7])] := by decide
+
 end Orbit.Connect
+
